@@ -130,12 +130,19 @@ type MustReach struct {
 	SuccessOnly bool
 	// TargetOK optionally restricts the target call sites (e.g. by argument)
 	TargetOK func(ci ssa.CallInstruction) bool
+	// After: instead of a condition, the starting points are the calls of this callee ("once X was called, every path
+	// to an exit also calls Target")
+	After *Callee
 }
 
 func (r *Report) MustReach(s MustReach) {
 	rule := fmt.Sprintf("ORDER: whenever [%s] holds, every path to an exit calls %s", s.Cond.Desc, s.Target.Desc)
 	if s.Fn == nil {
 		r.Lost(s.ID, rule, "anchored function not found")
+		return
+	}
+	if s.After != nil {
+		r.mustReachAfter(s)
 		return
 	}
 	key := s.ID + " @ " + r.P.FuncName(s.Fn)
@@ -204,4 +211,88 @@ func sortStrings(s []string) []string {
 		}
 	}
 	return out
+}
+
+func (r *Report) mustReachAfter(s MustReach) {
+	rule := fmt.Sprintf("ORDER: once %s was called, every path to an exit calls %s", s.After.Desc, s.Target.Desc)
+	key := s.ID + " @ " + r.P.FuncName(s.Fn)
+	starts := Calls(s.Fn, *s.After)
+	targets := Calls(s.Fn, s.Target)
+	if s.TargetOK != nil {
+		var keep []ssa.CallInstruction
+		for _, t := range targets {
+			if s.TargetOK(t) {
+				keep = append(keep, t)
+			}
+		}
+		targets = keep
+	}
+	r.Sites += len(starts) + len(targets)
+	min := s.Min
+	if min == 0 {
+		min = 1
+	}
+	if len(starts) < min {
+		r.Lost(key, rule, fmt.Sprintf("%d call(s) of %s (expected >= %d)", len(starts), s.After.Desc, min))
+		return
+	}
+	if len(targets) == 0 {
+		r.Bad(key, rule, r.P.Pos(s.Fn.Pos()), "target call not found")
+		return
+	}
+	blocked := map[*ssa.BasicBlock]bool{}
+	for _, t := range targets {
+		blocked[t.Block()] = true
+	}
+	var bad []string
+	for _, st := range starts {
+		// a target later in the same block settles this start
+		later := false
+		seen := false
+		for _, in := range st.Block().Instrs {
+			if in == ssa.Instruction(st) {
+				seen = true
+				continue
+			}
+			if !seen {
+				continue
+			}
+			for _, t := range targets {
+				if in == ssa.Instruction(t) {
+					later = true
+				}
+			}
+		}
+		if later {
+			continue
+		}
+		for _, succ := range st.Block().Succs {
+			if blocked[succ] {
+				continue
+			}
+			for b := range Reach(succ, nil, blocked) {
+				if len(b.Succs) != 0 {
+					continue
+				}
+				ret, isRet := b.Instrs[len(b.Instrs)-1].(*ssa.Return)
+				if !isRet {
+					continue
+				}
+				if s.SuccessOnly && len(ret.Results) > 0 && r.P.errStateAt(ret.Results[len(ret.Results)-1], b, 0) == stNonNil {
+					continue
+				}
+				bad = append(bad, fmt.Sprintf("return at %s is reachable after the call at %s without calling %s", r.P.Pos(ret.Pos()), r.P.Pos(st.Pos()), s.Target.Desc))
+			}
+		}
+		if len(st.Block().Succs) == 0 {
+			if _, isRet := st.Block().Instrs[len(st.Block().Instrs)-1].(*ssa.Return); isRet {
+				bad = append(bad, fmt.Sprintf("the function returns right after the call at %s without calling %s", r.P.Pos(st.Pos()), s.Target.Desc))
+			}
+		}
+	}
+	if len(bad) > 0 {
+		r.Bad(key, rule, r.P.Pos(s.Fn.Pos()), strings.Join(uniqStrings(sortStrings(bad)), "; "))
+		return
+	}
+	r.OK(key, rule, r.P.Pos(s.Fn.Pos()), fmt.Sprintf("%d start call(s), the target post-dominates them", len(starts)), true)
 }
